@@ -21,8 +21,11 @@ P-boxes (section `PBoxes`; `Lemmas/Iso.lean` has the rule-level facts `iso_frech
 * `add_iso`, `sub_iso`        ★ every dependency f, p, o, i;
 * `mul_iso_poi`               ★ perfect / opposite / independent, all signs (four-corner rule);
 * `mul_iso_f_pos`             Frechet product of non-negative operands;
+* `mul_iso_f_signed`          Frechet product for every combination of one-signed operands (non-negative / non-positive,
+                              operands touching zero included) by conjugation with the negation;
 * `neg_iso`, `numRight_iso`, `numLeft_iso`, `unary_iso`, `env_iso`, `imp_iso`  ★;
-* `recip_iso`, `div_iso_poi`  reciprocal and division by a divisor of one sign (perfect / opposite / independent);
+* `recip_iso`, `div_iso_poi`, `div_iso_f`, `numLeft_div_iso`  reciprocal, `X.div(Y, d)` under every dependency and
+                              `c / X`, for a divisor of one strict sign (under `f` the dividend one-signed as well);
 * `ptree_iso_partial`         nested p-box expressions of any depth over those nodes.
 Each says: both runs return (the constructor accepts), both results are well formed, and they are nested.
 
@@ -32,9 +35,12 @@ Mixed propagation (section `Mixed`):
   monotone in the focal endpoints (`geninv_antitone`); `stacking_iso`;
 * `slicing_iso`   ★ slicing with a fixed number of slices and the direct interval strategy.
 
-NOT proved (kept as `C12Statement`, checked by the correspondence and the oracle only): the Frechet
-product when an operand is negative or straddles zero (negation conjugation, naive ∩ Balch), division under
-Frechet, `c / X`.  Not modelled here: sin/cos/tanh/abs/powers (C05),
+NOT proved (kept as `C12Statement` / `C12DivStatement`, checked by the correspondence and the oracle only): the
+Frechet product (and quotient) when an operand STRADDLES zero — the naive ∩ Balch branch — or when the sign class
+changes between `X` and `X'` (e.g. `X ≤ 0`, `X'` straddling).  `naiveOp` and `imp` are isotone (`iso_naiveOp`,
+`imp_iso`), but `balchprod` is not a composition of isotone pieces: it shifts by `y0 = lo(Y)`, and `Y ↦ Y − lo(Y)` is
+not isotone (widening `Y` lowers `y0`, which RAISES the left bound of `Y − y0`), so a proof needs the algebra of
+Balch's decomposition, not composition.  Not modelled here: sin/cos/tanh/abs/powers (C05),
 vertex and subinterval propagation (C13; they are NOT isotone in general — see the known findings).
 -/
 set_option linter.unusedSimpArgs false
@@ -994,6 +1000,240 @@ example : IsoRes 2 (div 2 .p ⟨[1, 2], [2, 4]⟩ ⟨[1, 2], [3, 3]⟩) (div 2 .
 
 end Recip
 
+section Signed
+open Pun List Pun.PBox
+
+/-! ### the Frechet product for every sign class that does not straddle zero (negation conjugation) -/
+
+def NonNegB (P : PB) : Prop := (∀ v ∈ P.left, 0 ≤ v) ∧ (∀ v ∈ P.right, 0 ≤ v)
+def NonPosB (P : PB) : Prop := (∀ v ∈ P.left, v ≤ 0) ∧ (∀ v ∈ P.right, v ≤ 0)
+
+theorem hi_nonpos {P : PB} (h : NonPosB P) : hi P ≤ 0 := by
+  unfold hi
+  cases hr : P.right.getLast? with
+  | none =>
+    have : P.right = [] := List.getLast?_eq_none_iff.mp hr
+    simp [this]
+  | some v =>
+    have hm : v ∈ P.right := List.mem_of_getLast? hr
+    rw [List.getLastD_eq_getLast?, hr]
+    exact h.2 v hm
+
+theorem straddlesZero_false_of_nonpos {P : PB} (h : NonPosB P) : straddlesZero P = false := by
+  unfold straddlesZero
+  have : ¬ maxL 0 P.right > 0 := by
+    by_cases hne : P.right = []
+    · simp [hne, maxL]
+    · exact not_lt.mpr (h.2 _ (maxL_spec 0 P.right hne).1)
+  simp [this]
+
+/-- the classic Frechet product of non-negative operands is isotone (no condition on the upper end) -/
+theorem classicFrechet_mul_iso (n : Nat) {A A' B B' : PB} (wA : WF n A) (wA' : WF n A') (wB : WF n B) (wB' : WF n B')
+    (nA : NonNegB A) (nA' : NonNegB A') (nB : NonNegB B) (nB' : NonNegB B') (hA : PSub A A') (hB : PSub B B') :
+    IsoRes n (classicFrechet n (· * ·) A B) (classicFrechet n (· * ·) A' B') := by
+  have e : ∀ {P Q : PB}, NonNegB P → NonNegB Q → frechetOp (· * ·) P Q = frechetOp mulPos P Q := by
+    intro P Q hP hQ
+    unfold frechetOp
+    rw [frechetLeftRaw_mul_eq P.left Q.left hP.1 hQ.1, frechetRightRaw_mul_eq P.right Q.right hP.2 hQ.2]
+  simp only [classicFrechet, e nA nB, e nA' nB']
+  exact public_of_facts n n (Or.inl rfl) (frechetOp_facts _ mulPos_mono2 n wA wB) (frechetOp_facts _ mulPos_mono2 n wA' wB')
+    (iso_frechetOp _ mulPos_mono2 hA hB)
+
+theorem neg_nonneg_of_nonpos (n : Nat) {X R : PB} (wX : WF n X) (h : NonPosB X) (e : neg n X = .ok R) : NonNegB R := by
+  rw [(neg_ok n wX).1] at e
+  cases e
+  constructor
+  · intro v hv
+    have := (sortR_perm _).mem_iff.mp hv
+    simp only [List.mem_map, List.mem_reverse] at this
+    obtain ⟨a, ha, rfl⟩ := this
+    linarith [h.2 a ha]
+  · intro v hv
+    have := (sortR_perm _).mem_iff.mp hv
+    simp only [List.mem_map, List.mem_reverse] at this
+    obtain ⟨a, ha, rfl⟩ := this
+    linarith [h.1 a ha]
+
+/-- sign class of an operand as the dispatch of `frechet_pbox_mul` sees it -/
+inductive Sg (P : PB) : Bool → Prop
+  | neg : NonPosB P → Sg P true
+  | pos : PosBox P → Sg P false
+
+theorem Sg.hi_iff {P : PB} {b : Bool} (h : Sg P b) : decide (hi P ≤ 0) = b := by
+  cases h with
+  | neg hn => simp [hi_nonpos hn]
+  | pos hp => simp [not_le.mpr hp.hipos]
+
+theorem Sg.noStraddle {P : PB} {b : Bool} (h : Sg P b) : straddlesZero P = false := by
+  cases h with
+  | neg hn => exact straddlesZero_false_of_nonpos hn
+  | pos hp => exact straddlesZero_false_of_nonneg hp.lnn
+
+/-- `|P|` for a one-signed operand: `-P` in the negative class, `P` itself otherwise — isotone, well formed, non-negative -/
+theorem absPart_iso (n : Nat) {X X' : PB} {b : Bool} (wX : WF n X) (wX' : WF n X') (sX : Sg X b) (sX' : Sg X' b)
+    (hX : PSub X X') :
+    ∃ A A', (if hi X ≤ 0 then neg n X else pure X) = Except.ok A ∧ (if hi X' ≤ 0 then neg n X' else pure X') = Except.ok A' ∧
+      PSub A A' ∧ WF n A ∧ WF n A' ∧ NonNegB A ∧ NonNegB A' := by
+  cases sX with
+  | neg hn =>
+    cases sX' with
+    | neg hn' =>
+      obtain ⟨A, A', e, e', hs, w, w'⟩ := neg_iso n wX wX' hX
+      refine ⟨A, A', by simp [hi_nonpos hn, e], by simp [hi_nonpos hn', e'], hs, w, w',
+        neg_nonneg_of_nonpos n wX hn e, neg_nonneg_of_nonpos n wX' hn' e'⟩
+  | pos hp =>
+    cases sX' with
+    | pos hp' =>
+      refine ⟨X, X', by simp [not_le.mpr hp.hipos, pure, Except.pure], by simp [not_le.mpr hp'.hipos, pure, Except.pure],
+        hX, wX, wX', ⟨hp.lnn, hp.rnn⟩, ⟨hp'.lnn, hp'.rnn⟩⟩
+
+/-- **`X.mul(Y, 'f')` is isotone for every combination of one-signed operands** (non-negative with a positive upper
+end, or non-positive — including operands that touch zero): positive × positive directly, the other three classes by
+conjugation with the negation, as `nagative_frechet_pbox` does -/
+theorem mul_iso_f_signed (n : Nat) {X X' Y Y' : PB} {bx b_y : Bool}
+    (wX : WF n X) (wX' : WF n X') (wY : WF n Y) (wY' : WF n Y')
+    (sX : Sg X bx) (sX' : Sg X' bx) (sY : Sg Y b_y) (sY' : Sg Y' b_y) (hX : PSub X X') (hY : PSub Y Y') :
+    IsoRes n (mul n .f X Y) (mul n .f X' Y') := by
+  obtain ⟨A, A', eA, eA', hA, wA, wA', nA, nA'⟩ := absPart_iso n wX wX' sX sX' hX
+  obtain ⟨B, B', eB, eB', hB, wB, wB', nB, nB'⟩ := absPart_iso n wY wY' sY sY' hY
+  obtain ⟨R, R', eR, eR', hR, wR, wR'⟩ := classicFrechet_mul_iso n wA wA' wB wB' nA nA' nB nB' hA hB
+  have hx := sX.hi_iff; have hx' := sX'.hi_iff; have hy := sY.hi_iff; have hy' := sY'.hi_iff
+  by_cases hany : bx = true ∨ b_y = true
+  · -- the negative branch on both sides
+    have d1 : (decide (hi X ≤ 0) || decide (hi Y ≤ 0)) = true := by rw [hx, hy]; simpa using hany
+    have d1' : (decide (hi X' ≤ 0) || decide (hi Y' ≤ 0)) = true := by rw [hx', hy']; simpa using hany
+    have key : ∀ {P Q A B R : PB}, straddlesZero P = false → straddlesZero Q = false →
+        (decide (hi P ≤ 0) || decide (hi Q ≤ 0)) = true →
+        (if hi P ≤ 0 then neg n P else pure P) = Except.ok A → (if hi Q ≤ 0 then neg n Q else pure Q) = Except.ok B →
+        classicFrechet n (· * ·) A B = Except.ok R →
+        mul n .f P Q = (if (decide (hi P ≤ 0)).xor (decide (hi Q ≤ 0)) then neg n R else pure R) := by
+      intro P Q A B R s1 s2 dd e1 e2 e3
+      simp only [mul, frechetMul, s1, s2, Bool.or_self, Bool.false_eq_true, if_false, frechetMulNoStraddle]
+      rw [if_pos dd]
+      unfold negativeFrechet
+      rw [if_pos dd]
+      by_cases hp : hi P ≤ 0 <;> by_cases hq : hi Q ≤ 0 <;>
+        simp only [hp, hq, if_true, if_false, pure, Except.pure] at e1 e2 ⊢ <;>
+        simp only [e1, e2, e3, bind, Except.bind, pure, Except.pure] <;>
+        (try cases e1) <;> (try cases e2) <;> simp only [e3]
+    have m1 := key sX.noStraddle sY.noStraddle d1 eA eB eR
+    have m1' := key sX'.noStraddle sY'.noStraddle d1' eA' eB' eR'
+    rw [m1, m1', hx, hy, hx', hy']
+    by_cases hxor : (bx.xor b_y) = true
+    · simp only [hxor, if_true]
+      exact neg_iso n wR wR' hR
+    · simp only [hxor, Bool.false_eq_true, if_false]
+      exact ⟨R, R', rfl, rfl, hR, wR, wR'⟩
+  · -- positive × positive
+    have hbx : bx = false := by cases bx <;> simp at hany ⊢
+    have hby : b_y = false := by cases b_y <;> simp at hany ⊢
+    subst hbx; subst hby
+    cases sX with
+    | pos pX =>
+    cases sX' with
+    | pos pX' =>
+    cases sY with
+    | pos pY =>
+    cases sY' with
+    | pos pY' => exact mul_iso_f_pos n wX wX' wY wY' pX pX' pY pY' hX hY
+
+end Signed
+section DivF
+open Pun List Pun.PBox
+
+/-! ### `c / X` and division under Frechet, divisor of one sign -/
+
+/-- **`c / X` is isotone** for an operand of one sign (reciprocal, then the product with the number) -/
+theorem numLeft_div_iso (n : Nat) (c : Rat) (p : Rat → Prop) (sp : SignP p) {X X' : PB} (wX : WF n X) (wX' : WF n X')
+    (hX : PSub X X') (hl : ∀ v ∈ X.left, p v) (hr : ∀ v ∈ X.right, p v) (hl' : ∀ v ∈ X'.left, p v)
+    (hr' : ∀ v ∈ X'.right, p v) : IsoRes n (numLeft n .div c X) (numLeft n .div c X') := by
+  obtain ⟨r, r', e, e', hr0, wr, wr'⟩ := recip_iso n p sp wX wX' hX hl hr hl' hr'
+  obtain ⟨q, q', f, f', hq, wq, wq'⟩ := numberOp_mul_iso n c wr wr' hr0
+  exact ⟨q, q', by simp [numLeft, e, f, bind, Except.bind], by simp [numLeft, e', f', bind, Except.bind], hq, wq, wq'⟩
+
+theorem numberOp_one_ok (n : Nat) {P : PB} (wP : WF n P) :
+    numberOp n (· * ·) P 1 = .ok ⟨sortR (P.left.map (· * 1)), sortR (P.right.map (· * 1))⟩ := by
+  have hf : ∀ x y : Rat, x ≤ y → x * 1 ≤ y * 1 := fun x y h => by simpa using h
+  have hl : (sortR (P.left.map (· * 1))).length = n := by simp [sortR_length, wP.llen]
+  have hr : (sortR (P.right.map (· * 1))).length = n := by simp [sortR_length, wP.rlen]
+  have hle : LE (sortR (P.left.map (· * 1))) (sortR (P.right.map (· * 1))) := sortR_mono (LE.map hf wP.valid)
+  exact mk_ok n true _ _ hl hr (sortR_sorted _) (sortR_sorted _) hle
+
+/-- the sign of `1 * (1/Y)` is the sign of `Y` -/
+theorem recip_one_sign (n : Nat) (hn : 0 < n) (p : Rat → Prop) (sp : SignP p) (b : Bool)
+    (hb : (b = false ∧ ∀ x, p x ↔ 0 < x) ∨ (b = true ∧ ∀ x, p x ↔ x < 0))
+    {Y r q : PB} (wY : WF n Y) (hl : ∀ v ∈ Y.left, p v) (hr : ∀ v ∈ Y.right, p v)
+    (e : recip n Y = .ok r) (wr : WF n r) (f : numberOp n (· * ·) r 1 = .ok q) : Sg q b := by
+  rw [(recip_ok n p sp wY hl hr).1] at e
+  cases e
+  rw [numberOp_one_ok n wr] at f
+  cases f
+  have memL : ∀ v ∈ sortR ((Y.right.reverse.map (1 / ·)).map (· * 1)), ∃ a ∈ Y.right, v = 1 / a := by
+    intro v hv
+    have := (sortR_perm _).mem_iff.mp hv
+    simp only [List.mem_map, List.mem_reverse] at this
+    obtain ⟨w, ⟨a, ha, rfl⟩, rfl⟩ := this
+    exact ⟨a, ha, by ring⟩
+  have memR : ∀ v ∈ sortR ((Y.left.reverse.map (1 / ·)).map (· * 1)), ∃ a ∈ Y.left, v = 1 / a := by
+    intro v hv
+    have := (sortR_perm _).mem_iff.mp hv
+    simp only [List.mem_map, List.mem_reverse] at this
+    obtain ⟨w, ⟨a, ha, rfl⟩, rfl⟩ := this
+    exact ⟨a, ha, by ring⟩
+  rcases hb with ⟨hb, hp⟩ | ⟨hb, hp⟩ <;> subst hb
+  · have posL : ∀ v ∈ sortR ((Y.right.reverse.map (1 / ·)).map (· * 1)), 0 < v := by
+      intro v hv; obtain ⟨a, ha, rfl⟩ := memL v hv; exact one_div_pos.mpr ((hp a).mp (hr a ha))
+    have posR : ∀ v ∈ sortR ((Y.left.reverse.map (1 / ·)).map (· * 1)), 0 < v := by
+      intro v hv; obtain ⟨a, ha, rfl⟩ := memR v hv; exact one_div_pos.mpr ((hp a).mp (hl a ha))
+    refine Sg.pos ⟨fun v hv => le_of_lt (posL v hv), fun v hv => le_of_lt (posR v hv), ?_⟩
+    unfold hi
+    simp only
+    have hne : sortR ((Y.left.reverse.map (1 / ·)).map (· * 1)) ≠ [] := by
+      intro h0
+      have : (sortR ((Y.left.reverse.map (1 / ·)).map (· * 1))).length = n := by simp [sortR_length, wY.llen]
+      rw [h0] at this; simp at this; omega
+    rw [List.getLastD_eq_getLast?, List.getLast?_eq_some_getLast hne]
+    exact posR _ (List.getLast_mem hne)
+  · refine Sg.neg ⟨fun v hv => ?_, fun v hv => ?_⟩
+    · obtain ⟨a, ha, rfl⟩ := memL v hv; exact le_of_lt (one_div_neg.mpr ((hp a).mp (hr a ha)))
+    · obtain ⟨a, ha, rfl⟩ := memR v hv; exact le_of_lt (one_div_neg.mpr ((hp a).mp (hl a ha)))
+
+/-- **`X.div(Y, 'f')` is isotone** for a one-signed dividend class and a divisor of one strict sign:
+reciprocal, `1 * (1/Y)`, then the Frechet product (`p ↔ o` swap leaves `f` alone) -/
+theorem div_iso_f (n : Nat) (hn : 0 < n) (p : Rat → Prop) (sp : SignP p) (b : Bool)
+    (hb : (b = false ∧ ∀ x, p x ↔ 0 < x) ∨ (b = true ∧ ∀ x, p x ↔ x < 0)) {bx : Bool}
+    {X X' Y Y' : PB} (wX : WF n X) (wX' : WF n X') (wY : WF n Y) (wY' : WF n Y') (sX : Sg X bx) (sX' : Sg X' bx)
+    (hX : PSub X X') (hY : PSub Y Y')
+    (hl : ∀ v ∈ Y.left, p v) (hr : ∀ v ∈ Y.right, p v) (hl' : ∀ v ∈ Y'.left, p v) (hr' : ∀ v ∈ Y'.right, p v) :
+    IsoRes n (div n .f X Y) (div n .f X' Y') := by
+  obtain ⟨r, r', e, e', hr0, wr, wr'⟩ := recip_iso n p sp wY wY' hY hl hr hl' hr'
+  obtain ⟨q, q', f, f', hq, wq, wq'⟩ := numberOp_mul_iso n 1 wr wr' hr0
+  have sq := recip_one_sign n hn p sp b hb wY hl hr e wr f
+  have sq' := recip_one_sign n hn p sp b hb wY' hl' hr' e' wr' f'
+  have key := mul_iso_f_signed n wX wX' wq wq' sX sX' sq sq' hX hq
+  simp only [div, e, e', f, f', bind, Except.bind, swapPO]
+  exact key
+
+end DivF
+
+section SignedExamples
+open Pun List Pun.PBox
+/-! non-vacuity: a strictly negative operand widened until it touches zero (`hi = 0`), times a positive one -/
+example : Sg ⟨[-2, -2], [-1, -1/2]⟩ true := Sg.neg ⟨by decide +kernel, by decide +kernel⟩
+example : Sg ⟨[-2, -2], [-1, 0]⟩ true := Sg.neg ⟨by decide +kernel, by decide +kernel⟩
+example : Sg ⟨[1, 2], [2, 3]⟩ false := Sg.pos ⟨by decide, by decide, by decide +kernel⟩
+example : IsoRes 2 (mul 2 .f ⟨[1, 2], [2, 3]⟩ ⟨[-2, -2], [-1, -1/2]⟩) (mul 2 .f ⟨[1, 2], [2, 3]⟩ ⟨[-2, -2], [-1, 0]⟩) :=
+  mul_iso_f_signed 2 ⟨rfl, rfl, by decide, by decide, by decide⟩ ⟨rfl, rfl, by decide, by decide, by decide⟩
+    ⟨rfl, rfl, by decide, by decide +kernel, by decide +kernel⟩ ⟨rfl, rfl, by decide, by decide, by decide⟩
+    (Sg.pos ⟨by decide, by decide, by decide +kernel⟩) (Sg.pos ⟨by decide, by decide, by decide +kernel⟩)
+    (Sg.neg ⟨by decide +kernel, by decide +kernel⟩) (Sg.neg ⟨by decide +kernel, by decide +kernel⟩)
+    (PSub.refl _) (by constructor <;> decide +kernel)
+example : IsoRes 2 (numLeft 2 .div 3 ⟨[1, 2], [2, 4]⟩) (numLeft 2 .div 3 ⟨[1/2, 2], [3, 5]⟩) :=
+  numLeft_div_iso 2 3 _ signP_pos ⟨rfl, rfl, by decide, by decide, by decide⟩
+    ⟨rfl, rfl, by decide +kernel, by decide, by decide +kernel⟩ (by constructor <;> decide +kernel)
+    (by decide) (by decide) (by decide +kernel) (by decide)
+end SignedExamples
+
 section Mixed
 open Pun Pun.PBox
 
@@ -1208,15 +1448,17 @@ def PTree.NoDiv : PTree → Prop
 
 /-- **C12 for p-box expressions at full strength** (division apart): every nested expression, every dependency
 including the Frechet product of operands of any sign.  `ptree_iso_partial` proves it for the trees whose
-products are under perfect / opposite / independent dependence (`PTree.Proven`); `mul_iso_f_pos` adds the Frechet
-product of non-negative operands.  MISSING: the Frechet product with a negative or zero-straddling operand. -/
+products are under perfect / opposite / independent dependence (`PTree.Proven`); `mul_iso_f_signed` adds the Frechet
+product of one-signed operands of every sign combination (also touching zero).  MISSING: the Frechet product with a
+zero-straddling operand (naive ∩ Balch) and pairs whose sign class differs between `X` and `X'`. -/
 def C12Statement : Prop :=
   ∀ (n : Nat) (t : PTree), t.NoDiv → ∀ (vars vars' : List PB), List.Forall₂ PSub vars vars' →
     (∀ P ∈ vars, WF n P) → (∀ P ∈ vars', WF n P) →
     ∀ R R', t.eval n vars = .ok R → t.eval n vars' = .ok R' → PSub R R'
 
-/-- **C12 for division** `X.div(Y, d)` with a divisor of one sign.  `div_iso_poi` proves it (with both runs defined)
-under perfect / opposite / independent dependence; MISSING: `d = f` (the Frechet product with the reciprocal). -/
+/-- **C12 for division** `X.div(Y, d)` with a divisor of one sign.  `div_iso_poi` proves it under perfect / opposite /
+independent dependence, `div_iso_f` under Frechet for a one-signed dividend, `numLeft_div_iso` for `c / X`.
+MISSING: `d = f` with a dividend that straddles zero (the naive ∩ Balch branch of the product). -/
 def C12DivStatement : Prop :=
   ∀ (n : Nat) (d : Dep), d ≠ .unknown → ∀ (X X' Y Y' : PB), WF n X → WF n X' → WF n Y → WF n Y' →
     ((∀ v ∈ Y'.left, 0 < v) ∨ (∀ v ∈ Y'.right, v < 0)) → PSub X X' → PSub Y Y' →
